@@ -34,7 +34,7 @@ PROPS = {
     "C19": {
         "id": "C19",
         "engine": e6_order,
-        "quick": _budget(64, 1500, 60),
+        "quick": _budget(64, 1150, 60),
         "thorough": _budget(960, 3000, 900),
         "technique": "deterministic simulation: seeded digraphs and call histories with every set "
                      "iteration order (vertex set, successor sets, backtracking frontier) chosen by "
@@ -102,9 +102,9 @@ _E1_BUDGET = {  # (batches, examples per batch) for quick / thorough
     "C02": ((64, 480), (640, 700)),
     "C03": ((64, 350), (640, 500)),
     "C04": ((64, 400), (640, 600)),
-    "C05": ((64, 540), (640, 700)),
+    "C05": ((64, 450), (640, 700)),
     "C08": ((64, 100), (640, 200)),
-    "C09": ((64, 230), (640, 360)),
+    "C09": ((64, 190), (640, 360)),
     "C10": ((64, 400), (640, 600)),
 }
 for _pid, (_title, _tech) in _E1.items():
